@@ -11,7 +11,7 @@ SPEC = {
         "the directory iterator (globwalk/walkdir) is abstracted to the list of entries it yields; the scan of a file is abstracted to an arbitrary function file -> result lines (the theorems hold for every such function); what the real scanner returns per file is compared with the library API by the harness",
         "real thread schedules are sampled by the operating system, not steered: the harness runs the real yr binary with 1..32 threads on generated trees; the Coq model is run under a pseudo-random schedule derived from the case seed and must print the same multiset",
         "sending Message::Error and Message::Abort are two channel operations in the code and one model step; console.log messages, --count, --negate, --tag, json output and the second (post-join) output channel are not modelled",
-        "after an Abort (only with --timeout) nothing is claimed about the output; the model predicts, and the harness confirms on the real binary, that the process can hang (recorded as a known finding)",
+        "after an Abort (only with --timeout) nothing is claimed about WHICH lines are printed; the process must still terminate: the model proves it for the receiver fact of the source (no_deadlock) and the abort probe checks it on the real binary",
     ],
     "trusted_base": ["Gen/WalkGen.v: channel capacity, fallback thread count and the `main keeps the paths Receiver` fact, regenerated from cli/src/walk.rs; the translator also checks 17 syntactic shapes of walk.rs / scan.rs / main.rs the model relies on",
                      "the yr binary is built from /repo's working tree by `cargo build --offline -p yara-x-cli` (hooks off) before the harness runs"],
@@ -22,10 +22,9 @@ RULE = ("generated directory trees (0-600 files, nested directories up to depth 
         "files removed after yr printed its first line, file names that are not UTF-8) x 2-11 generated rules (text/hex/regexp/filesize/count/private) x "
         "--threads 1..32 x text|ndjson x source|`yr compile`+--compiled-rules x --recursive / --recursive=K / none; the output is parsed into a multiset of "
         "(file, rule) lines (ndjson: (file, rule set), one line per file) and compared with per-file scans through the library API and with the --threads 1 run; "
-        "the Coq model is run with the same thread count under a seeded pseudo-random schedule. Plus the abort probe (capacity+1 / capacity+2 files, -p 1 -a 1, a rule that never ends). "
+        "the Coq model is run with the same thread count under a seeded pseudo-random schedule. First, as regression corpus: the abort probe (capacity+1 / capacity+2 files, -p 1 -a 1, a rule that never ends: must exit) and a tree with non-UTF-8 file names (printed lossily, U+FFFD, in both formats). "
         "Non-trivial: >= 2 files in scope and >= 2 threads; distinct by (tree, threads, format, rules form).")
 
-ABORT_HANG_FP = "C18:abort-hang:walker-blocked-on-full-paths-channel"
 
 
 def classify(case):
@@ -59,17 +58,6 @@ def run_k(run, tier, seed, drv):
     n = 100 if tier == "quick" else 2400
     info = standard_k(run, drv, "C18", "c18", ["--seed", seed, "--n", n, "--yr", yr, "--cap", cap], "K_C18_walk", classify)
     info["rule"] = RULE
-    # the hang after an abort is outside the property's text (spec_case accepts the probe) but it is a
-    # defect the model predicts and the binary exhibits: report it through the findings mechanism
-    casedir = os.path.join(drv.CACHE, "cases", "C18")
-    try:
-        first = [json.loads(l) for l in open(os.path.join(casedir, "cases_0.jsonl"), encoding="utf-8") if l.strip()]
-    except OSError:
-        first = []
-    hung = [c for c in first if c.get("kind") == "abort-probe" and c.get("hung")]
-    if hung:
-        info["violations"].append({"fingerprint": ABORT_HANG_FP, "tag": "abort-hang", "kind": "deadlock after abort (model: no_deadlock_after_abort_refuted)",
-                                   "case": hung[0], "replay_hint": "yr scan -p 1 -a 1 <rule that never ends> <directory with capacity+2 files> does not exit"})
     return info
 
 
@@ -78,14 +66,14 @@ MANIFEST = {
                    "unbounded message channel, printer, abort and panic paths): for every number of workers N >= 1, every channel capacity, every list of "
                    "directory entries, every per-file result function and every schedule, a completed run without abort has handled every walked file "
                    "exactly once and printed exactly the union of each file's own result lines (multiset equality, each line tagged with its file); "
-                   "while nobody aborted no reachable non-final state is stuck, and every schedule is finite (decreasing measure). The channel capacity "
+                   "no non-final state is stuck, aborted runs included (for the receiver fact of the source; without it the hang is proved reachable), and every schedule is finite (decreasing measure). The channel capacity "
                    "and the structural facts the model relies on are regenerated from the Rust source on every run. The real yr binary is run on generated "
                    "trees with 1..32 threads, text and ndjson, source and compiled rules, and its output multiset is compared with per-file library scans, "
                    "with the single-thread run, and with the Coq model run under a seeded pseudo-random schedule."),
     "level_note": ("Partial: real thread schedules are sampled, not steered; the proof is about the model of the channel protocol, tied to the source by "
                    "the translator's shape checks and by differential runs. Trusted: Coq kernel, gen_walk.py, the harness (tree generator, output parser), "
-                   "crossbeam channel semantics, globwalk. After an abort (--timeout) no output claim is made; the model shows (no_deadlock_after_abort_refuted) "
-                   "and the harness confirms that yr can hang there; ndjson output panics on non-UTF-8 file names (both recorded as known findings)."),
+                   "crossbeam channel semantics, globwalk. After an abort (--timeout) only termination is claimed, not the set of printed lines. "
+                   "Two defects found by this check were repaired (686deaba hang after abort, 20aad900 ndjson panic on non-UTF-8 names); both stay in the corpus as regression cases."),
     "technique": "Coq proof (invariants + measure) over an LTS with source-generated constants + differential runs of the real binary vs library oracle and vs the executable model",
     "design_ref": "DESIGN.md section 4, C18",
 }
